@@ -227,18 +227,10 @@ def binding_demo(ctx, binp):
     i = cand[len(cand) // 2]
     bad = json.loads(json.dumps(events))
     bad[i]["rd"][0]["bal"] += 1
-    # (b) a Stage that introduces the root a following Commit refers to is deleted
-    seen, j, exact = set(), None, True
-    for k, e in enumerate(events):
-        if e["e"] == "Stage":
-            if e["root"] not in seen and k + 1 < len(events) and events[k + 1]["e"] == "Commit" and k > len(events) // 4:
-                j = k
-                break
-            seen.add(e["root"])
-    if j is None:
-        # fall back: drop a storage write of a non-zero value that is read back in the same event
-        j = next(k for k, e in enumerate(events) if e["e"] in ("SetStorage", "SetRawStorage") and e["v"] != 0 and k > 10)
-        exact = False
+    # (b) a Commit that the directly following Reopen refers to is deleted (part A of every run ends with
+    #     Stage, Commit, Reopen of that commit): the Reopen's commit index does not exist any more
+    exact = True
+    j = max(k for k, e in enumerate(events[:-1]) if e["e"] == "Commit" and events[k + 1]["e"] == "Reopen" and events[k + 1]["ci"] == e["ci"])
     dele = events[:j] + events[j + 1:]
     for name, evs, at in (("corrupted-read", bad, i), ("deleted-event", dele, j if exact else None)):
         accepted, hwm, ln, r = ctx.validate_trace(SUB, "Trace_StateJournal", _write(ctx, "demo-" + name, evs), timeout=600)
@@ -247,7 +239,7 @@ def binding_demo(ctx, binp):
         if at is not None and hwm != at:
             raise Infra("binding demonstration: %s trace rejected at line %d, expected %d" % (name, hwm, at))
     ctx.cov["binding_demo"] = ("a recorded trace with one logged balance changed (rejected exactly at that event) and one with a "
-                               "Stage event deleted (rejected at the following event) were both rejected by Trace_StateJournal")
+                               "Commit event deleted (rejected at the following Reopen) were both rejected by Trace_StateJournal")
     return True
 
 
